@@ -4,7 +4,7 @@
 From Coq Require Import NArith ZArith List Bool.
 From Cloak Require Import Model.Reorder Model.Mux Proofs.MuxBase Proofs.MuxSafety Proofs.MuxView
   Proofs.MuxEffect Proofs.MuxPay Proofs.MuxData Proofs.MuxLocal Proofs.MuxClose Proofs.MuxCalm Proofs.MuxUp
-  Proofs.MuxExact.
+  Proofs.MuxExact Proofs.MuxLive.
 Import ListNotations.
 Local Open Scope N_scope.
 
@@ -71,3 +71,20 @@ Theorem C03_close_is_exact :
   run_written s sid ls os = run_reads s sid ls os ++ pipe rb.
 Proof. exact close_is_exact. Qed.
 Print Assumptions C03_close_is_exact.
+
+(* ... and the end-of-stream IS delivered: once the writer has closed the stream and no frame of that
+   direction is in flight any more, the reader's end is closed (its reads return the rest of the
+   pipe, then the broken-stream error) and it has been given, or still finds in its pipe, exactly
+   the bytes written - whichever connections the data and the closing notice travelled on. *)
+Theorem C03_close_is_delivered :
+  forall s sid k unit toA toB ls,
+  (1 <= k)%nat -> 1 <= unit ->
+  fresh_run (init k false unit toA toB) ls -> busy_run k (init k false unit toA toB) ls ->
+  no_local_close s sid ls ->
+  let os := outputs k false unit toA toB ls in
+  let y := reach k false unit toA toB ls in
+  nE (run_frames s sid os) + 2 < two64 ->
+  cl_of (run_frames s sid os) <> two64 -> inflight s sid y = [] ->
+  exists rb, rview s sid y = Some (rb, true) /\ run_written s sid ls os = run_reads s sid ls os ++ pipe rb.
+Proof. exact close_is_delivered. Qed.
+Print Assumptions C03_close_is_delivered.
